@@ -16,6 +16,8 @@ from ..expr import show
 from ..pathcond import calls_to
 from ..ptrflow import direct_param_stores, pointer_receivers
 
+from ..roles import upvar_index  # noqa: E402
+
 LEVEL = "proof"
 CC = "srtla_core::connection::congestion::CongestionControl"
 LO, HI, DEF = 1000, 60000, 20000
@@ -166,7 +168,7 @@ def d5_classic_no_time_recovery(ctx):
         return
     ctx.WHO_CALLS("D5", CONN + "::perform_window_recovery", {hk.stable}, floor=1)
     pa = ctx.pa(hk)
-    ci = [i for i, n in hk.upvar_names.items() if n == "classic"]
+    ci = [i for i in [upvar_index(hk, "classic")] if i is not None]
     sites = calls_to(hk, stable=CONN + "::perform_window_recovery")
     if len(ci) != 1 or not sites:
         ctx.chk.missing("D5", "handle_housekeeping: classic flag / recovery call", "")
